@@ -120,9 +120,16 @@ func (a *EpochBitmapAllocator) Allocate(ctx context.Context, subscriberID string
 			continue
 		}
 
+		// A slot nobody owns is free whatever its 2-bit generation says: a
+		// generation that is never rewritten aliases an active one again
+		// every 4 epochs.
 		gen := a.getGeneration(idx)
-		if a.isGenerationFree(gen, threshold) {
+		owner, owned := a.ipToSubscriber[idx]
+		if !owned || a.isGenerationFree(gen, threshold) {
 			// Found free slot - allocate it
+			if owned {
+				delete(a.subscribers, owner) // expired holder
+			}
 			a.setGeneration(idx, a.currentGeneration())
 			a.subscribers[subscriberID] = idx
 			a.ipToSubscriber[idx] = subscriberID
@@ -236,6 +243,9 @@ func (a *EpochBitmapAllocator) AdvanceEpoch() uint64 {
 		if a.isGenerationFree(gen, threshold) {
 			delete(a.subscribers, subscriberID)
 			delete(a.ipToSubscriber, idx)
+			if idx < a.nextFreeHint {
+				a.nextFreeHint = idx
+			}
 		}
 	}
 
@@ -254,10 +264,10 @@ func (a *EpochBitmapAllocator) Stats() (allocated, total uint64, utilization flo
 	a.mu.RLock()
 	defer a.mu.RUnlock()
 
-	// Count active allocations (not expired)
+	// Count active allocations (owned and not expired)
 	threshold := a.freeThreshold()
 	active := uint64(0)
-	for idx := uint64(1); idx < a.totalIPs-1; idx++ {
+	for _, idx := range a.subscribers {
 		gen := a.getGeneration(idx)
 		if !a.isGenerationFree(gen, threshold) {
 			active++
